@@ -91,6 +91,25 @@ def check_migrate():
             O.fail('C20.migrate.data_changed', w, 'data untouched', 'data/card.csv changed')
     finally:
         b.close()
+    # a merchants.rules that is already there (written by hand, not named in the settings yet) holds the user's work whether or not it loads:
+    # a rule with a typo, groundwork without a rule yet, or rules - the migration keeps its bytes under some name
+    for what, text in (('with_rules', '[Mine]\nmatch: contains("MINE")\ncategory: Own\n'),
+                       ('with_a_typo', '# my rules\n[Mine]\nmatch: contains("MINE"\ncategory: Own\n'),
+                       ('groundwork_only', '# thresholds I will use\nbig = amount > 500\nfield.description = regex_replace(field.description, "^X ", "")\n')):
+        b = budget('csv')
+        try:
+            O.case(('migrate', 'existing_rules_file', what))
+            b.write('config/merchants.rules', text)
+            before = b.snapshot()
+            run_cmd(cmd_run, **up_args(b, format='summary', summary=True, migrate=True))
+            after = b.snapshot()
+            mine = before['config/merchants.rules']
+            if not any(v == mine for k, v in after.items() if k.startswith('config/')):
+                O.fail('C20.migrate.existing_rules_file_overwritten_without_backup', {'budget': 'csv', 'command': 'up --migrate', 'existing merchants.rules': what},
+                       'the bytes of the existing merchants.rules kept under some name in config/', sorted(k for k in after if k.startswith('config/')),
+                       'tally up --migrate with a hand-written config/merchants.rules next to the legacy CSV')
+        finally:
+            b.close()
 
 
 def check_init():
@@ -127,11 +146,31 @@ def check_init():
             b.close()
 
 
+def check_init_nothing_to_migrate():
+    """init migrates a legacy CSV only when it has rules: a file with nothing but the header line (and comments) stays where it is - also when an editor
+    saved it with a byte order mark"""
+    for what, text in (('header_only', 'Pattern,Merchant,Category,Subcategory,Tags\n# add your rules below\n'),
+                       ('header_only_with_byte_order_mark', '\ufeffPattern,Merchant,Category,Subcategory,Tags\n# add your rules below\n')):
+        b = budget('csv')
+        try:
+            b.write('config/merchant_categories.csv', text.encode('utf-8'), binary=True)
+            before = b.snapshot(exclude=())
+            O.case(('init', 'nothing_to_migrate', what))
+            run_cmd(cmd_init, dir=b.root)
+            after = b.snapshot(exclude=())
+            if after.get('config/merchant_categories.csv') != before['config/merchant_categories.csv']:
+                O.fail('C20.init.csv_without_rules_moved', {'budget': 'csv', 'command': 'init <existing folder>', 'legacy csv': what}, 'config/merchant_categories.csv left in place, byte-identical',
+                       sorted(k for k in after if k.startswith('config/')), 'tally init on a folder whose legacy CSV has no rules')
+        finally:
+            b.close()
+
+
 def main():
     if O.witness:
         w = O.witness
         if w.get('command', '').startswith('init'):
             check_init()
+            check_init_nothing_to_migrate()
         elif w.get('command') == 'up --migrate':
             check_migrate()
         else:
@@ -141,6 +180,7 @@ def main():
     check_readonly('csv')
     check_migrate()
     check_init()
+    check_init_nothing_to_migrate()
     O.sample({'budget': 'csv', 'command': 'up -q'})
     O.finish()
 
